@@ -677,6 +677,7 @@ func c07NodeAfterError(c *Ctx, r *Result) {
 	}
 	// helpers that dereference the position they find on entry
 	needs := map[*ssa.Function]bool{}
+	needsUnless := map[*ssa.Function]int{} // uses the position only while its error parameter (index) is nil
 	for _, fn := range c.ModFuncs() {
 		if c.PkgOf(fn) != "parser" || len(fn.Blocks) == 0 {
 			continue
@@ -702,9 +703,10 @@ func c07NodeAfterError(c *Ctx, r *Result) {
 					// error guards the use (ndOtherwiseFinally(p, try, err))
 					guarded := false
 					facts := FactsAt(in)
-					for _, prm := range fn.Params {
+					for pi, prm := range fn.Params {
 						if prm.Type().String() == "error" && facts.IsNil[accessPath(prm)] {
 							guarded = true
+							needsUnless[fn] = pi
 						}
 					}
 					if !guarded {
@@ -814,6 +816,13 @@ func c07NodeAfterError(c *Ctx, r *Result) {
 			case *ssa.Call:
 				if f := x.Call.StaticCallee(); f != nil && needs[f] {
 					check(st, in, nil, "call of "+f.Name()+"(), which dereferences the parser position,")
+				} else if f != nil {
+					if pi, ok := needsUnless[f]; ok && !needs[f] {
+						// fine when the pending error itself is handed over
+						if i := cur(st); i >= 0 && pi < len(x.Call.Args) && st.canon(x.Call.Args[pi]) != st.canon(advs[i].errV) {
+							check(st, in, nil, "call of "+f.Name()+"() (which uses the parser position while its error argument is nil) with another error value")
+						}
+					}
 				}
 			}
 		}
